@@ -55,7 +55,10 @@ type layer6 struct {
 // with any type byte, optional client id and rapid commit, wrapped in depth
 // Relay-Forward layers (symbolic link/peer addresses, hop count, optional
 // Interface-ID, one unknown option).
+var outerIsReply bool // the outermost relay layer is typed RELAY-REPL (a datagram a server must not answer)
+
 func parsed6() (d dhcpv6.DHCPv6, msg *dhcpv6.Message, layers []layer6, hasCID, rapid bool, cid []byte) {
+	outerIsReply = false
 	msg = &dhcpv6.Message{MessageType: dhcpv6.MessageType(vnd.U8("msgtype"))}
 	copy(msg.TransactionID[:], vnd.Bytes("xid", 3))
 	if vnd.Pick("cid", 0, 1) == 1 {
@@ -79,6 +82,10 @@ func parsed6() (d dhcpv6.DHCPv6, msg *dhcpv6.Message, layers []layer6, hasCID, r
 		}
 		r.AddOption(&dhcpv6.OptionGeneric{OptionCode: dhcpv6.OptionCode(200), OptionData: vnd.Bytes("unk", 1)})
 		r.AddOption(dhcpv6.OptRelayMessage(d))
+		if i == depth-1 && vnd.Pick("outertype", 0, 1) == 1 {
+			r.MessageType = dhcpv6.MessageTypeRelayReply
+			outerIsReply = true
+		}
 		d = r
 		layers = append(layers, ly) // innermost first
 	}
@@ -123,6 +130,8 @@ func VerifH_handle6() {
 
 	l.HandleMsg6(make([]byte, 100), oob, peer)
 
+	vnd.Assert(l.Interface.Index == bound && l.Interface.Name == "" && len(l.handlers) == nh, "C12 handling a datagram leaves the listener's interface binding as configured")
+
 	vnd.Assert(len(sent) <= 1, "C01 at most one reply per datagram")
 	if parseFails {
 		vnd.Cover("parse-error")
@@ -136,6 +145,11 @@ func VerifH_handle6() {
 		vnd.Cover("unsupported")
 		vnd.Assert(len(sent) == 0, "C12 other message types (and messages without client id) get no reply")
 		vnd.Assert(len(calls6) == 0, "C13 handlers are not invoked for messages that are not answerable")
+		return
+	}
+	if outerIsReply {
+		vnd.Cover("outer-relay-reply")
+		vnd.Assert(len(sent) == 0, "C12 a datagram whose outermost layer is a Relay-Reply gets no reply")
 		return
 	}
 	// dispatch
